@@ -75,10 +75,6 @@ Qed.
 (* ---- detection: error patterns on byte strings ---- *)
 Local Open Scope N_scope.
 
-(* the corrupted frame: byte-wise xor with the error pattern *)
-Fixpoint xor_bytes (a b : list N) : list N :=
-  match a, b with x :: a, y :: b => N.lxor x y :: xor_bytes a b | _, _ => [] end.
-
 Lemma bits8_lxor a b : bits8 (N.lxor a b) = xorl (bits8 a) (bits8 b).
 Proof. unfold bits8. cbn. now rewrite !N.lxor_spec. Qed.
 Lemma bits8_length a : length (bits8 a) = 8%nat. Proof. reflexivity. Qed.
@@ -180,13 +176,6 @@ Qed.
 
 (* the three error classes, as patterns over the bits of the whole frame in wire order
    (byte by byte, least significant bit first; the CRC trailer low byte first) *)
-Definition err_class (bs : list bool) : Prop :=
-  (exists a z, bs = zeros a ++ [true] ++ zeros z) \/
-  (exists a d z, (1 <= d <= 2100)%nat /\ bs = zeros a ++ [true] ++ zeros (d - 1) ++ [true] ++ zeros z) \/
-  (exists a x z, x < 65536 /\ x <> 0 /\ bs = zeros a ++ bits16 x ++ zeros z) \/
-  (* a burst: every flipped bit lies in a span w of at most 16 bits (the frame itself has at least 16 bits) *)
-  (exists a w z, (length w <= 16)%nat /\ w <> zeros (length w) /\ (16 <= length bs)%nat /\ bs = zeros a ++ w ++ zeros z).
-
 Lemma err_class_syn bs : err_class bs -> syn bs <> 0.
 Proof.
   intros [(a & z & ->)|[(a & d & z & Hd & ->)|[(a & x & z & Hx & Hn & ->)|(a & w & z & Hw & Hnz & Hl & ->)]]].
@@ -317,17 +306,6 @@ Proof.
 Qed.
 
 (* ---- a delimited frame whose CRC does not verify: CrcValidationFailure, nothing delivered ---- *)
-Definition delimited (r : role) (pdu : list N) : Prop :=
-  match pdu with
-  | [] => False
-  | fcv :: _ =>
-      match length_rule r fcv with
-      | LFixed n => length pdu = 1 + n
-      | LCount off => 1 + off <= length pdu /\ length pdu = 1 + off + N.to_nat (nth off pdu 0%N)
-      | LUnknown => False
-      end
-  end.
-
 Lemma body_at_frame k fi addr pdu lo hi rest : length pdu <= 253 ->
   ref_rtu_body k fi addr (length pdu) (pdu ++ [lo; hi] ++ rest) =
   if N.eqb (lo + 256 * hi) (crc (addr :: pdu))
@@ -409,4 +387,41 @@ Proof.
     apply Forall_app; split; [exact H1|]. apply Forall_app; split; [exact H2|exact Hrest].
   - rewrite xor_bytes_length by assumption. exact Hlen.
   - rewrite Hs. cbn [app]. now rewrite <- app_assoc.
+Qed.
+
+(* ---- the RTU client: one reader for all (re)openings of the port, reset when a connection starts ---- *)
+Definition is_rtu (p : ptype) (r : reader) : Prop := match r_parser r with PRtu q _ => q = p | _ => False end.
+
+Lemma next_frame_rtu p : forall fuel r n fi, is_rtu p r -> is_rtu p (fst (fst (next_frame fuel r n fi))).
+Proof.
+  induction fuel as [|fuel IH]; intros r n fi Hr; [exact Hr|].
+  destruct r as [[st|q st] b]; [destruct Hr|]. cbn [is_rtu r_parser] in Hr. subst q. cbn [next_frame parser_parse r_parser r_buf].
+  destruct (rtu_parse p st b) as [[st' b'] res]. destruct res as [[f|]|e|]; try reflexivity.
+  destruct n as [|c n'].
+  - destruct (read_some b' []) as [b2 rs]. reflexivity.
+  - destruct (read_some b' c) as [b2 rs]. destruct rs as [k rest| |]; try reflexivity.
+    destruct rest; apply IH; reflexivity.
+Qed.
+Lemma run_reader_st_rtu p : forall fuel r n fi, is_rtu p r -> is_rtu p (fst (run_reader_st fuel r n fi)).
+Proof.
+  induction fuel as [|fuel IH]; intros r n fi Hr; [exact Hr|]. cbn [run_reader_st].
+  pose proof (next_frame_rtu p (nf_fuel n) r n fi Hr) as H.
+  destruct (next_frame (nf_fuel n) r n fi) as [[r' n'] res]. cbn [fst] in H. destruct res as [f|e]; [|exact H].
+  specialize (IH r' n' fi H). destruct (run_reader_st fuel r' n' fi) as [r'' [l e]]. exact IH.
+Qed.
+
+Theorem rtu_client_every_connection_fresh : forall p conns r, is_rtu p r -> Forall (fun c => Forall bytes (fst c)) conns ->
+  client_connections true r conns =
+  map (fun c => lift_frames (ref_rtu_frames (role_of p) (fst (sched_stream (fst c) (snd c))) (snd (sched_stream (fst c) (snd c))))) conns.
+Proof.
+  intros p. induction conns as [|[n fi] conns IH]; intros r Hr Hb; [reflexivity|]. cbn [client_connections map fst snd].
+  inversion Hb as [|? ? Hbn Hbc]; subst. cbn [fst] in Hbn.
+  assert (Hreset : reader_reset r = reader_new (kind_of p)).
+  { destruct r as [[st|q st] b]; [destruct Hr|]. cbn [is_rtu r_parser] in Hr. subst q. destruct p; reflexivity. }
+  rewrite Hreset.
+  assert (Hnew : is_rtu p (reader_new (kind_of p))) by (destruct p; reflexivity).
+  pose proof (run_reader_st_snd (run_fuel (reader_new (kind_of p)) n) (reader_new (kind_of p)) n fi) as Hs.
+  pose proof (run_reader_st_rtu p (run_fuel (reader_new (kind_of p)) n) (reader_new (kind_of p)) n fi Hnew) as Ht.
+  destruct (run_reader_st (run_fuel (reader_new (kind_of p)) n) (reader_new (kind_of p)) n fi) as [r' res]. cbn [fst snd] in *.
+  rewrite (IH r' Ht Hbc). f_equal. rewrite Hs. exact (rtu_any_schedule p n fi Hbn).
 Qed.
